@@ -351,6 +351,27 @@ macro_rules! g_eq {
         Some(|a: II, b: II| Some(mk(a)? == mk(b)?))
     };
 }
+/// the comparison operators themselves (`PartialOrd`'s provided methods can be overridden): [<, <=, >, >=, !=]
+#[macro_export]
+macro_rules! g_cmp_ops {
+    () => {
+        Some(|a: II, b: II| {
+            let (x, y) = (mk(a)?, mk(b)?);
+            Some([x < y, x <= y, x > y, x >= y, x != y])
+        })
+    };
+}
+/// `Ord`'s provided methods: (max, min) as inner values
+#[macro_export]
+macro_rules! g_ord_minmax {
+    () => {
+        Some(|a: II, b: II| {
+            let hi = ::core::cmp::Ord::max(mk(a.clone())?, mk(b.clone())?).into_inner();
+            let lo = ::core::cmp::Ord::min(mk(a)?, mk(b)?).into_inner();
+            Some((hi, lo))
+        })
+    };
+}
 /// one object on both sides: (`x == x`, `x != x`)
 #[macro_export]
 macro_rules! g_eq_self {
